@@ -51,6 +51,7 @@ class Builder:
             else:
                 self.vars[name] = pt.ScratchVar(teal_type(pt, d["t"]))
         self.routines: List[Any] = []
+        self.locals_built: List[Dict[str, Any]] = []
         self.name_override = name_override or {}
         for i, r in enumerate(recipe.get("routines", [])):
             self.routines.append(self._make_routine(i, r))
@@ -70,6 +71,7 @@ class Builder:
                     locs[name] = pt.ScratchVar(teal_type(pt, d["t"]), d["slot"])
                 else:
                     locs[name] = pt.ScratchVar(teal_type(pt, d["t"]))
+            self.locals_built.append(locs)
             sc = Scope(kw, locs, idx)
             return self.expr(r["body"], sc)
 
